@@ -707,7 +707,14 @@ def index(ip, st, v, i):
         i = int(i)
     if isinstance(v, JVal):
         if ip.spec:
-            raise Unsupported("spec: index into raw JSON (use jget)")
+            # total view: a str key reads the dict view (overlay first), an int the list view
+            if v.oid is not None and not is_sym(i) and i in st.cell(v.oid):
+                yield st, st.cell(v.oid)[i]
+            elif kind_of(i) == "str":
+                yield st, JVal(V.j_dget(v.term, to_term(i)))
+            else:
+                yield st, JVal(V.j_lget(v.term, to_term(int_of(i))))
+            return
         for st1, c in narrow(ip, st, v):
             if isinstance(c, (JList, JDict)) or seq_kind(c):
                 yield from index(ip, st1, c, i)
